@@ -86,6 +86,23 @@ def streams(rng, tier):
     s1.shrinkable = False
     s2 = Stream("datatype-accepts", "hcore", dt_ops, judge=judge_dt, rule="dec datatype <head>: the reported Type names an accessor; that accessor is then run on the same bytes")
     s2.shrinkable = False
+    # the token API reads integers too (Decode for Token: what Tokenizer, Decoder::tokens() and display use)
+    tk_ops = []
+    for (neg, width, n) in triples[::3]:
+        tk_ops.append(f"tokdec {gen.head(neg, n, width).hex()} #:{neg},{width},{n}")
+    def judge_tok(op, impl, model, spec):
+        neg, width, n = (int(x) for x in op.split("#:")[1].split(","))
+        v = -1 - n if neg else n
+        iw = impl.split(" ")
+        if len(iw) != 3 or iw[1] != "end" or "," in iw[0] or ":" not in iw[0]:
+            return "violation"
+        kind, val = iw[0].split(":", 1)
+        if kind not in RANGE or int(val) != v or not (RANGE[kind][0] <= v <= RANGE[kind][1]):
+            return "violation"              # a wrapped / truncated / mis-typed integer token
+        return "ok" if impl == model else "corr"
+    s2t = Stream("int-tokens", "hcore", tk_ops, judge=judge_tok,
+                 rule="tokdec <integer head>: the token carries exactly the integer denoted (kind's range contains it), for every width and boundary")
+    s2t.shrinkable = False
     # Int <-> primitive conversions: oracle = plain integer arithmetic
     TR = dict({k: v for k, v in RANGE.items() if k != "int"}, u128=(0, 2**128 - 1), i128=(-2**127, 2**127 - 1))
     conv = []
@@ -127,6 +144,7 @@ def streams(rng, tier):
         TY["Atomic" + b] = (b.lower(), R[b.lower()], False)
     TY["NonZeroUsize"] = ("nz(u64)", R["u64"], True); TY["NonZeroIsize"] = ("nz(i64)", R["i64"], True)
     TY["AtomicUsize"] = ("u64", R["u64"], False); TY["AtomicIsize"] = ("i64", R["i64"], False)
+    TY["char"] = ("char", (0, 0x10ffff), False)       # Decode for char: every head width; surrogates are not scalar values
     tops, tmops, texp = [], [], {}
     sel = [t for t in triples if t[2] < 300 or t[2] in set(gen.boundaries(64))] + rng.sample(triples, min(len(triples), 4000))
     for (neg, width, n) in sel:
@@ -136,7 +154,7 @@ def streams(rng, tier):
             desc, (lo, hi), nz = TY[name]
             op = f"tdec {name} {hd}05 #:{neg},{width},{n}"
             tops.append(op); tmops.append(f"tdec {desc} {hd}05")
-            texp[op] = (f"ok {v} {1 + width}" if lo <= v <= hi and not (nz and v == 0) else None)
+            texp[op] = (f"ok {v} {1 + width}" if lo <= v <= hi and not (nz and v == 0) and not (name == "char" and 0xd800 <= v <= 0xdfff) else None)
     def judge_typed(op, impl, model, spec):
         e = texp[op]
         if e is None:
@@ -147,7 +165,7 @@ def streams(rng, tier):
     s4 = Stream("typed-int-impls", "hcore", tops, model_ops=tmops, judge=judge_typed,
                 rule="tdec of usize/isize/NonZero*/Atomic*/Int/the eight fixed types on every (sign,width,argument) head: value iff representable (and non-zero for NonZero), position = head length")
     s4.shrinkable = False
-    return [s1, s2, s3, s4]
+    return [s1, s2, s2t, s3, s4]
 
 
 DT_ACC = {"u8": "u8", "u16": "u16", "u32": "u32", "u64": "u64", "i8": "i8", "i16": "i16", "i32": "i32", "i64": "i64", "int": "int"}
@@ -170,5 +188,16 @@ def judge_dt(op, impl, model, spec):
 
 
 def replay_streams(rp):
-    s = Stream("replay", "hcore", [rp["original_op"]], judge=judge if "datatype" not in rp["op"] else judge_dt)
+    op = rp["original_op"]
+    if not op.startswith("dec "):
+        # the oracle of the other streams lives in their closures: re-create the streams and keep only that op
+        import random
+        for tier in ("quick", "thorough"):
+            for st in streams(random.Random(int(rp.get("seed", 1))), tier):
+                if op in st.ops:
+                    i = st.ops.index(op)
+                    r = Stream("replay", "hcore", [op], model_ops=[(st.model_ops or st.ops)[i]], judge=st.judge)
+                    r.shrinkable = False
+                    return [r]
+    s = Stream("replay", "hcore", [op], judge=judge if "datatype" not in rp["op"] else judge_dt)
     return [s]
